@@ -284,6 +284,20 @@ def check(F, rep, tier):
             else: rep.ok("R01.9", "every successful return with a prefix given contains the prefix and the rendered version (%d paths)" % nsome, nontrivial_key="prefix")
         except mir.TooManyPaths:
             rep.undecided("R01.9", "prefix-shape", "too many paths", fo.where())
+    # ---- R01.11 the prefix printed is the prefix given: no value parser rewrites --output-prefix ------------------------------------------
+    cgo = CG[0] if CG and CG[0] is not None else mir.CallGraph(F)
+    custom = set()
+    for p_ in F.fns:
+        if "clap::Args>::augment_args" in p_ and "crate::cli::common::args::output" in p_:
+            custom |= {x for x in (cgo.addr.get(p_, set()) | cgo.edges.get(p_, set())) if x.startswith("crate::") and F.fn(x) is not None and "::_::" not in x}
+    for x in sorted(custom):
+        g_ = F.fn(x)
+        inner = sorted({(mir.callee(t) or "").rsplit("::", 1)[-1] for h in [g_] + F.children(x) for bi, t in h.calls()})
+        alt = [c for c in inner if c in ("trim", "trim_start", "trim_end", "trim_matches", "trim_start_matches", "trim_end_matches", "to_lowercase", "to_uppercase", "replace", "truncate", "strip_prefix", "strip_suffix", "split", "take", "filter")]
+        if alt: rep.bad("R01.11", "prefix-rewritten:" + x.rsplit("::", 1)[-1], "the value parser %s of an output option passes the text through %s: what is printed in front of the version is not the --output-prefix that was given ('release ' becomes 'release')" % (x.rsplit("::", 1)[-1], alt), g_.where())
+        else: rep.undecided("R01.11", "output-value-parser:" + x.rsplit("::", 1)[-1], "a custom value parser on an output option whose effect is not evaluated", g_.where())
+    if not custom: rep.ok("R01.11", "the output options use clap's built-in parsers (the prefix is taken as written)", nontrivial_key="plainprefix")
+    core.borrow(F, rep, "c18", "C18", "R01.11", ("R18.4:",), "the Python functions return the command's stdout only")
     # ---- R01.10 reading a PEP 440 version keeps the length of its release: an absent part stays absent ------------------------------
     tz = F.fn("crate::version::pep440::to_zerv::<impl crate::version::pep440::core::PEP440>::to_zerv_with_schema")
     if rep.anchor("R01.10", "PEP440::to_zerv_with_schema", tz):
